@@ -229,6 +229,14 @@ where
                         }
                     }
                 }
+            } else if let Bound::Excluded(s) = self.bounds.start_bound() {
+                self.c.seek(*s);
+                // skip the start key itself, or the key before where it should be.
+                if let Some(data) = self.c.current() {
+                    if data.key() <= *s {
+                        self.c.next();
+                    }
+                }
             }
         }
         let next = self.c.next();
